@@ -13,6 +13,9 @@ pub mod c13;
 pub mod c23;
 pub mod c31;
 pub mod c34;
+pub mod c26;
+pub mod c28;
+pub mod c29;
 
 pub fn dispatch(cfg: &Cfg) -> Option<Outcome> {
     Some(match cfg.prop.as_str() {
@@ -29,6 +32,9 @@ pub fn dispatch(cfg: &Cfg) -> Option<Outcome> {
         "C23" | "C24" => c23::run(cfg),
         "C31" => c31::run(cfg),
         "C34" => c34::run(cfg),
+        "C26" => c26::run(cfg),
+        "C28" => c28::run(cfg),
+        "C29" => c29::run(cfg),
         _ => return None,
     })
 }
